@@ -414,7 +414,29 @@ def _struct(recipe: Any) -> Any:
     return (cls, p, tuple(sorted(ks)))
 
 
+class _Ver:
+    """A user value class: equality, hash and str() by value - and the default repr(), which spells
+    the object's address."""
+
+    def __init__(self, *parts: int) -> None:
+        self.parts = parts
+
+    def __eq__(self, o: object) -> bool:
+        return type(o) is _Ver and o.parts == self.parts
+
+    def __hash__(self) -> int:
+        return hash(self.parts)
+
+    def __str__(self) -> str:
+        return ".".join(map(str, self.parts))
+
+    def __canon__(self) -> Any:
+        return ("_Ver", self.parts)
+
+
 def _canon(v: Any) -> Any:
+    if hasattr(v, "__canon__"):
+        return v.__canon__()
     if isinstance(v, frozenset):
         return ("frozenset", tuple(sorted(map(repr, v))))
     return repr(v)
@@ -494,6 +516,10 @@ SPECIAL_PAIRS = [
     ("two-lone-surrogates", R("VStr2", {"a": "\ud800", "b": ""}), R("VStr2", {"a": "\ud801", "b": ""})),
     ("lone-surrogate-vs-xml-escape", R("VStr2", {"a": "\ud83d", "b": ""}), R("VStr2", {"a": "&#55357;", "b": ""})),
     ("lone-surrogate-vs-name-escape", R("VStr2", {"a": "\ud83d", "b": ""}), R("VStr2", {"a": "\\N{U+D83D}", "b": ""})),
+    # equal values of equal types held as distinct objects (a user value class that defines ==, hash and str)
+    ("equal-value-objects", R("VStr2", {"a": _Ver(1, 2), "b": "x"}), R("VStr2", {"a": _Ver(1, 2), "b": "x"})),
+    ("equal-value-objects-below-a-parent", R("VMany", items=(R("VStr2", {"a": _Ver(3), "b": ""}),)), R("VMany", items=(R("VStr2", {"a": _Ver(3), "b": ""}),))),
+    ("different-value-objects", R("VStr2", {"a": _Ver(1, 2), "b": "x"}), R("VStr2", {"a": _Ver(1, 3), "b": "x"})),
     ("long-common-prefix", R("VStr2", {"a": "p" * 64 + "A" * 16, "b": ""}), R("VStr2", {"a": "p" * 64 + "B" * 16, "b": ""})),
     ("tuple-order", R("VRich", {"t": (1, 2)}), R("VRich", {"t": (2, 1)})),
     ("int-vs-bool-in-optional", R("VRich", {"n": 1}), R("VRich", {"n": True})),
